@@ -719,6 +719,10 @@ impl TransportHandle {
 
         {
             let mut reqs = self.active_requests.write().await;
+            // Drop what cancelled callers left behind: a caller that was dropped while
+            // waiting never reaches the removal at the end of this function, and its
+            // entry would occupy one of the MAX_ACTIVE_REQUESTS slots for good.
+            reqs.retain(|_, pending| !pending.response_tx.is_closed());
             if reqs.len() >= MAX_ACTIVE_REQUESTS {
                 return Err(P2PError::Transport(
                     crate::error::TransportError::StreamError(
